@@ -10,6 +10,7 @@
 #include <string>
 #include <functional>
 #include <cstring>
+#include <csetjmp>
 #define VF_MAIN
 #include "vf.h"
 #include "vfsched.h"
@@ -107,20 +108,37 @@ struct Reporter : MemoryLeakFailure {
 };
 
 // ------------------------------------------------------------------ thread scripts
-enum Op : char { N = 'N', D = 'D', A = 'A', a = 'a', M = 'M', R = 'R', F = 'F' };
-const char* SCRIPTS[] = { "ND", "Aa", "MF", "MRF", "N", "NNDD", "AMaF", "MR", "NDND" };
+enum Op : char { N = 'N', D = 'D', A = 'A', a = 'a', M = 'M', R = 'R', F = 'F', X = 'X' };
+// X = misuse: free() of an address that was never allocated. The REAL global reporter fails the "current test" and
+// leaves the wrapper through PlatformSpecificLongJmp (a per-thread seam here); the rest of that thread's script is skipped.
+const char* SCRIPTS[] = { "ND", "Aa", "MF", "MRF", "N", "NNDD", "AMaF", "MR", "NDND", "X", "MXF", "NXD" };
 constexpr int NSCRIPTS_Q = 7, NSCRIPTS_T = 9;
+const char* XSCRIPTS[] = { "ND", "MF", "X", "MXF", "NXD", "MR" };
+constexpr int NXSCRIPTS = 6;
+const char* const* g_script_table = SCRIPTS;
 
 struct Held { char* p; size_t size; char fam; unsigned char pat; };
 struct ThreadCtx {
-    const char* script; Held held[8]; int nheld; int content_errors; int null_allocs; int allocs;
+    const char* script; Held held[8]; int nheld; int content_errors; int null_allocs; int allocs; int misuses; bool aborted;
 };
+thread_local jmp_buf t_jmp; thread_local bool t_jmp_armed = false;
+void thread_longjmp() { if (!t_jmp_armed) abort(); longjmp(t_jmp, 1); }
+int g_console_misuse_reports, g_console_other_failures;
+void console_capture(const char* s_, PlatformSpecificFile) { if (strstr(s_, "Deallocating non-allocated memory")) g_console_misuse_reports++; else if (strstr(s_, "error: Failure")) g_console_other_failures++; }
+void console_flush() {}
 ThreadCtx g_tc[sched::MAXT];
 
 void fill(Held& h) { memset(h.p, h.pat, h.size); }
 bool intact(const Held& h) { for (size_t i = 0; i < h.size; i++) if ((unsigned char)h.p[i] != h.pat) return false; return true; }
 
+void run_script_body(int tid);
 void run_script(int tid) {
+    t_jmp_armed = true;
+    if (setjmp(t_jmp) == 0) run_script_body(tid);
+    else g_tc[tid].aborted = true;
+    t_jmp_armed = false;
+}
+void run_script_body(int tid) {
     ThreadCtx& t = g_tc[tid];
     for (const char* s = t.script; *s; s++) {
         unsigned char pat = (unsigned char)(0x10 * (tid + 1) + (s - t.script));
@@ -141,6 +159,11 @@ void run_script(int tid) {
             for (int i = k; i + 1 < t.nheld; i++) t.held[i] = t.held[i + 1];
             t.nheld--;
             if (fam == N) operator delete(h.p); else if (fam == A) operator delete[](h.p); else cpputest_free_location(h.p, "script.c", 20 + tid);
+            break; }
+        case X: {
+            static char never_allocated[64];
+            t.misuses++;
+            cpputest_free_location(never_allocated + 8 * (tid + 1), "script.c", 40 + tid);      // does not return: reported, then longjmp
             break; }
         case R: {
             int k = -1; for (int i = t.nheld - 1; i >= 0; i--) if (t.held[i].fam == M) { k = i; break; }
@@ -163,14 +186,18 @@ void scenario(Chooser& ch, int nthreads, int nscripts, int bound) {
     int sidx[sched::MAXT];
     for (int i = 0; i < nthreads; i++) sidx[i] = ch.choose(nscripts);
     arena_reset();
-    Reporter reporter;
+    g_console_misuse_reports = g_console_other_failures = 0;
     g_lockset_violations = 0; g_lockset_tag[0] = 0; g_h1_points = 0;
-    for (int i = 0; i < nthreads; i++) { g_tc[i] = ThreadCtx(); g_tc[i].script = SCRIPTS[sidx[i]]; sched::S.body[i] = [i]() { run_script(i); }; }
+    for (int i = 0; i < nthreads; i++) { g_tc[i] = ThreadCtx(); g_tc[i].script = g_script_table[sidx[i]]; sched::S.body[i] = [i]() { run_script(i); }; }
 
     MemoryLeakDetector* saved_det = MemoryLeakWarningPlugin::getGlobalDetector();
     MemoryLeakFailure* saved_rep = MemoryLeakWarningPlugin::getGlobalFailureReporter();
-    MemoryLeakDetector* det = new MemoryLeakDetector(&reporter);
-    MemoryLeakWarningPlugin::setGlobalDetector(det, &reporter);
+    // the REAL reporter of the plugin (fails the current test, releases the lock, leaves by PlatformSpecificLongJmp)
+    MemoryLeakDetector* det = new MemoryLeakDetector(saved_rep);
+    MemoryLeakWarningPlugin::setGlobalDetector(det, saved_rep);
+    void (*saved_longjmp)() = PlatformSpecificLongJmp; PlatformSpecificLongJmp = thread_longjmp;
+    void (*saved_fputs)(const char*, PlatformSpecificFile) = PlatformSpecificFPuts; PlatformSpecificFPuts = console_capture;
+    void (*saved_flush)() = PlatformSpecificFlush; PlatformSpecificFlush = console_flush;
     det->enable();
     setCurrentNewAllocator(&g_new_alloc); setCurrentNewArrayAllocator(&g_arr_alloc); setCurrentMallocAllocator(&g_mal_alloc);
     void* (*saved_realloc)(void*, size_t) = PlatformSpecificRealloc;
@@ -191,8 +218,11 @@ void scenario(Chooser& ch, int nthreads, int nscripts, int bound) {
 
     // (1) lockset
     if (g_lockset_violations) vf::fail("lockset/unprotected-access", desc + vf::fmt(": detector state touched at '%s' without owning the detector mutex while %d threads were live (%d such points)", g_lockset_tag, nthreads, g_lockset_violations));
-    // (2) no misuse report on well-formed scripts
-    if (reporter.calls) vf::fail("report/spurious-misuse-report", desc + ": reporter called: " + reporter.first);
+    // (2) exactly the misuses of the scripts are reported (as test failures, through the real reporter), nothing else
+    int misuses = 0; for (int i = 0; i < nthreads; i++) misuses += g_tc[i].misuses;
+    if (g_console_misuse_reports > misuses || g_console_other_failures) vf::fail("report/spurious-misuse-report", desc + vf::fmt(": %d misuse reports and %d other failures printed, the scripts contain %d misuses", g_console_misuse_reports, g_console_other_failures, misuses));
+    if (g_console_misuse_reports < misuses) vf::fail("report/misuse-not-reported", desc + vf::fmt(": %d misuse reports printed, the scripts contain %d misuses", g_console_misuse_reports, misuses));
+    for (int i = 0; i < nthreads; i++) if (g_tc[i].misuses && !g_tc[i].aborted) vf::fail("report/script-continued-after-misuse", desc + vf::fmt(": thread %d went on after its misuse was reported", i));
     // (3) accounting == union of what the threads still hold
     size_t held = 0, allocs = 0; int content = 0, nulls = 0;
     for (int i = 0; i < nthreads; i++) { held += g_tc[i].nheld; content += g_tc[i].content_errors; nulls += g_tc[i].null_allocs; allocs += g_tc[i].allocs; }
@@ -222,7 +252,8 @@ void scenario(Chooser& ch, int nthreads, int nscripts, int bound) {
         if (h.fam == N) operator delete(h.p); else if (h.fam == A) operator delete[](h.p); else cpputest_free_location(h.p, "cleanup.c", 1);
     }
     MemoryLeakWarningPlugin::turnOffNewDeleteOverloads();
-    if (reporter.calls) vf::fail("report/misuse-report-on-cleanup", desc + ": releasing the held blocks after the run was reported: " + reporter.first);
+    PlatformSpecificLongJmp = saved_longjmp; PlatformSpecificFPuts = saved_fputs; PlatformSpecificFlush = saved_flush;
+    if (g_console_misuse_reports > misuses) vf::fail("report/misuse-report-on-cleanup", desc + ": releasing the held blocks after the run was reported as misuse");
     if (det->totalMemoryLeaks(mem_leak_period_all) != 0) vf::fail("accounting/not-empty-after-cleanup", desc + ": blocks remain after everything was released");
     setCurrentNewAllocatorToDefault(); setCurrentNewArrayAllocatorToDefault(); setCurrentMallocAllocatorToDefault();
     MemoryLeakWarningPlugin::setGlobalDetector(saved_det, saved_rep);
@@ -316,14 +347,15 @@ int main(int argc, char** argv) {
     { size_t b = (size_t)g_arena; b = (b + 63) & ~(size_t)63; while (b % 73) b += 64; g_base = (char*)b; }
     bool T = vf::thorough();
     vf::info("rule", "every schedule (choice of the next enabled thread at each modelled-mutex operation and at each unprotected detector access) of real threads running allocation scripts through the thread-safe wrappers, up to the preemption bound; all blocks forced into one hash bucket; non-trivial = schedule with >= 1 preemption");
-    struct Cfg { const char* name; int threads, scripts, bound; bool inside; };
-    const Cfg quick[] = { {"sched2", 2, NSCRIPTS_T, 3, false}, {"sched3", 3, 4, 2, false}, {"sched2in", 2, 5, 2, true} };
-    const Cfg thor[]  = { {"sched2", 2, NSCRIPTS_T, 5, false}, {"sched3", 3, 6, 3, false}, {"sched4", 4, 3, 2, false}, {"sched2in", 2, NSCRIPTS_T, 3, true}, {"sched3in", 3, 3, 2, true} };
-    const Cfg* cfgs = T ? thor : quick; int ncfg = T ? 5 : 3;
+    struct Cfg { const char* name; int threads, scripts, bound; bool inside; bool misuse; };
+    const Cfg quick[] = { {"sched2", 2, NSCRIPTS_T, 3, false, false}, {"sched3", 3, 4, 2, false, false}, {"sched2in", 2, 5, 2, true, false}, {"sched2x", 2, NXSCRIPTS, 2, true, true} };
+    const Cfg thor[]  = { {"sched2", 2, NSCRIPTS_T, 5, false, false}, {"sched3", 3, 6, 3, false, false}, {"sched4", 4, 3, 2, false, false}, {"sched2in", 2, NSCRIPTS_T, 3, true, false}, {"sched3in", 3, 3, 2, true, false},
+                          {"sched2x", 2, NXSCRIPTS, 3, true, true}, {"sched3x", 3, 4, 1, true, true} };
+    const Cfg* cfgs = T ? thor : quick; int ncfg = T ? 7 : 4;
     for (int k = 0; k < ncfg; k++) {
         Cfg c = cfgs[k];
-        vf::info(std::string(c.name) + ".bound", vf::fmt("%d threads, all %d^%d script tuples over {ND,Aa,MF,MRF,N,NNDD,AMaF,MR,NDND}[0..%d), preemption bound %d%s", c.threads, c.scripts, c.threads, c.scripts, c.bound, c.inside ? ", scheduling points also at every detector observation point inside the critical section" : ""));
-        vf::section_dfs(c.name, c.threads, false, [&](Chooser& ch) { g_detector_mutex = nullptr; g_preempt_inside = c.inside; scenario(ch, c.threads, c.scripts, c.bound); g_preempt_inside = false; });
+        vf::info(std::string(c.name) + ".bound", vf::fmt("%d threads, all %d^%d script tuples over {ND,Aa,MF,MRF,N,NNDD,AMaF,MR,NDND}[0..%d), preemption bound %d%s%s", c.threads, c.scripts, c.threads, c.scripts, c.bound, c.inside ? ", scheduling points also at every detector observation point inside the critical section" : "", c.misuse ? "; script table {ND,MF,X,MXF,NXD,MR} where X is a misuse (free of a never allocated address) reported through the real reporter" : ""));
+        vf::section_dfs(c.name, c.threads, false, [&](Chooser& ch) { g_detector_mutex = nullptr; g_preempt_inside = c.inside; g_script_table = c.misuse ? XSCRIPTS : SCRIPTS; scenario(ch, c.threads, c.scripts, c.bound); g_preempt_inside = false; });
         vf::require_outcomes(c.name, 20);
     }
     {
